@@ -306,7 +306,20 @@ func c18Constructors(c *Ctx) {
 			if _, isB := cl.Call.Value.(*ssa.Builtin); isB {
 				return false
 			}
-			return len(root.Params) == 3 && DerivesOnly(cl.Call.Value, false, func(v ssa.Value) bool { return v == ssa.Value(root.Params[2]) })
+			if len(root.Params) == 3 && DerivesOnly(cl.Call.Value, false, func(v ssa.Value) bool { return v == ssa.Value(root.Params[2]) }) {
+				return true
+			}
+			// the same getter received as an explicit parameter by a helper: a parameter of type func() ([]reflect.Value, error)
+			if pr, isP := cl.Call.Value.(*ssa.Parameter); isP {
+				if sig, isS := pr.Type().Underlying().(*types.Signature); isS && sig.Params().Len() == 0 && sig.Results().Len() == 2 {
+					if sl, isSl := sig.Results().At(0).Type().Underlying().(*types.Slice); isSl {
+						if _, n := NamedOf(sl.Elem()); n == "Value" {
+							return true
+						}
+					}
+				}
+			}
+			return false
 		}
 	}
 	// ---- plugin constructor: both calls inside the MakeFunc closure, none outside
@@ -315,6 +328,11 @@ func c18Constructors(c *Ctx) {
 		if cl == nil {
 			c.Anchor("O18.2", "the reflect.MakeFunc closure of pluginConstructor.NewFactory")
 		} else {
+			// the produced function may hand the whole job to one method of the constructor (return c.produce(...)):
+			// then that method is the per-product code
+			if d := soleDelegate(cl); d != nil {
+				cl = d
+			}
 			g := isGetConf(cl)
 			isNew := func(in ssa.Instruction) bool {
 				return isReflectCallOn(in, func(r ssa.Value) bool { return IsFieldLoad(r, "pluginConstructor", "newPlugin") })
@@ -387,6 +405,13 @@ func c18Constructors(c *Ctx) {
 				}
 				okPanic, okRet := false, false
 				nPanicOther := 0
+				// the blocks on the config-error edge: those of the per-product function dominated by err != nil, and all
+				// blocks of a helper of the package that is called there with the error (confFailed(factoryType, err))
+				type errBlock struct {
+					b   *ssa.BasicBlock
+					isE func(ssa.Value) bool
+				}
+				var errBlocks []errBlock
 				for _, b := range cl.Blocks {
 					last := b.Instrs[len(b.Instrs)-1]
 					errEdge := false
@@ -398,6 +423,28 @@ func c18Constructors(c *Ctx) {
 					if !errEdge {
 						continue
 					}
+					errBlocks = append(errBlocks, errBlock{b, isE})
+					for _, in := range b.Instrs {
+						hc, isC := in.(*ssa.Call)
+						if !isC || hc.Call.StaticCallee() == nil || len(hc.Call.StaticCallee().Blocks) == 0 || PkgOf(hc.Call.StaticCallee()) != PkgOf(cl) {
+							continue
+						}
+						h := hc.Call.StaticCallee()
+						for i, a := range hc.Call.Args {
+							if isE(a) && i < len(h.Params) {
+								p := ssa.Value(h.Params[i])
+								hE := func(v ssa.Value) bool { return SliceAny(v, func(r ssa.Value) bool { return r == p }) }
+								for _, hb := range h.Blocks {
+									errBlocks = append(errBlocks, errBlock{hb, hE})
+								}
+							}
+						}
+					}
+				}
+				for _, eb := range errBlocks {
+					b, isE := eb.b, eb.isE
+					last := b.Instrs[len(b.Instrs)-1]
+					_ = isE
 					numOut := func(k int64) bool {
 						for _, f := range CmpFactsAt(last) {
 							if f.Op == token.EQL {
@@ -949,4 +996,36 @@ func returnsItsArgument(fn *ssa.Function) bool {
 		}
 	})
 	return found
+}
+
+
+// soleDelegate: fn consists of one call of a function of its package whose results it returns unchanged.
+func soleDelegate(fn *ssa.Function) *ssa.Function {
+	var call *ssa.Call
+	n := 0
+	EachInstr(fn, func(in ssa.Instruction) {
+		if cl, ok := in.(*ssa.Call); ok {
+			if _, isB := cl.Call.Value.(*ssa.Builtin); !isB {
+				n++
+				call = cl
+			}
+		}
+	})
+	if n != 1 || call == nil || call.Call.StaticCallee() == nil || len(call.Call.StaticCallee().Blocks) == 0 || PkgOf(call.Call.StaticCallee()) != PkgOf(fn) {
+		return nil
+	}
+	ok := true
+	EachInstr(fn, func(in ssa.Instruction) {
+		if ret, isR := in.(*ssa.Return); isR {
+			for _, r := range ret.Results {
+				if c2, _ := CallOfValue(r); c2 != call {
+					ok = false
+				}
+			}
+		}
+	})
+	if !ok {
+		return nil
+	}
+	return call.Call.StaticCallee()
 }
